@@ -93,7 +93,7 @@ def pipeline(ctx, monitor, family, scenarios, opt='', consts='', drift_fn=None, 
         'distinct_nontrivial': len(shapes), 'rule': rule,
         'samples': samples_of(scenarios, 3) + [{'first_trace_events': sample_events}],
         'exhaustive': exhaustive,
-        'model_runs': ctx.stats['model_runs'], 'gen_runs': ctx.stats['gen_runs'],
+        'model_runs': ctx.stats['model_runs'], 'gen_runs': ctx.stats['gen_runs'], 'lemmas': ctx.stats.get('lemmas', []),
         'checker_cmd': 'java tlc2.TLC -workers 1 %s.tla (trace specification) over ndjson traces recorded by `harness run -family %s`' % (monitor, family),
         'trusted_base': ASSUME_COMMON,
     }
@@ -166,6 +166,8 @@ def run_mux_family(ctx, prop):
     quick = ctx.tier == 'quick'
     # MODEL: the ideal design satisfies the invariants / action properties behind C04, C05, C17
     model_check(ctx, 'Mux', 'Mux_ideal_small.cfg' if quick else 'Mux_ideal_deep.cfg')
+    if prop in ('C04', 'C01'):
+        apalache_inductive(ctx, 'Packetise')      # the packetiser's arithmetic for all payload lengths
     # GEN: one scenario per transition of the model's state graph
     gen = gen_tlc(ctx, 'Mux', 'Mux_gen_quick.cfg' if quick else 'Mux_gen_deep.cfg')
     scs = tag_scenarios(gen, 'mg', ctx.seed, 'mux')
